@@ -289,6 +289,7 @@ fn add<S: Subject>(jobs: &mut Vec<Box<dyn JobT>>, shape: TShape, q: u64, t: u64,
     let ctx = Ctx::new(S::NEEDS).newest();
     let label = format!("{}/{:?}/reachable states x relative clocks", S::name(), S::NEEDS);
     jobs.push(job(label, q, t, { let pc = pc.clone(); move || plan_strategy(&pc) }, move |p: &Plan, st: &mut Stats| check_reset::<S>(p, &ctx, st, &shape)).decoder({ let pc = pc.clone(); move |d: &[u8]| decode_plan(&pc, d) })
+            .encoder({ let pc = pc.clone(); move |t: &Plan| encode_plan(&pc, t) })
             .floor("nontrivial", floor).boxed());
 }
 
